@@ -18,7 +18,7 @@ func init() {
 			"D3 applied or error (package.json) — within the handling of one update, the loop can move on to the next update only after a sjson.SetBytes for it, every other way out is a non-nil error (decided path-sensitively over the per-update 'matched' flag, which is reset for every update); " +
 			"D4 identity on no updates (package.json) — every call that changes the buffer is inside the per-update loop and what is written is the buffer read (possibly updated); the write and its directory creation are the only effects; " +
 			"D5 origin separator agreement (pom.xml) — origins are '@'-joined component lists: code that splits them on '@' re-joins with '@', and suffix operations on origins never use a bare component constant (they strip '@'+component), so patches are filed under the origin the writer looks up. " +
-			"Added in round 2: D6 pom.xml: a section is marked as handled under the origin whose patches are applied to it; D7 package.json: an entry is rewritten only on the 'current value == original version' edge; D8 no Trim-family call with a computed cutset in the manifest writers. NOT decided: byte-for-byte / token-for-token preservation and re-read equality (values); the pom.xml writer's per-token rewrite rules beyond D5.",
+			"Added in round 2: D6 pom.xml: a section is marked as handled under the origin whose patches are applied to it; D7 package.json: an entry is rewritten only on the 'current value == original version' edge; D8 no Trim-family call with a computed cutset in the manifest writers. Added in round 3: D9 candidate parents are identified with mavenutil.ProjectKey at every site and dependencies are matched on Key(); D10 a parent's requirements are filed under the path of the file that was opened. NOT decided: byte-for-byte / token-for-token preservation and re-read equality (values); the pom.xml writer's per-token rewrite rules beyond D5.",
 		Run: runC13,
 		Controls: []Mutant{
 			{Name: "name-unescaped", File: "guidedremediation/internal/manifest/npm/packagejson.go", Old: "			key := gjson.Escape(name)", New: "			key := name", Rule: "D1-escaped-path", Site: "Write"},
